@@ -2,6 +2,7 @@
 from vlib.framework import PUnit, LUnit, BUnit
 from contracts import nonbond as N
 from bounded import engine_histories
+from contracts import engine_rep as ER
 
 
 def build(tier, seed):
@@ -12,6 +13,12 @@ def build(tier, seed):
         LUnit("min-image-laws", N.lemma_min_image_laws),
         LUnit("min-image-scaling", N.lemma_min_image_scaling),
         LUnit("norm-monotone", N.lemma_norm_monotone),
+        PUnit("engine-remove-positions", [ER.REMOVE], ER.REG),
+        PUnit("engine-add-positions", [ER.ADD], ER.REG),
+        PUnit("engine-get-point", [ER.GET_POINT], ER.REG),
+        PUnit("engine-concatenate-trees", [ER.CONCAT], ER.REG),
+        PUnit("engine-init", [ER.INIT], ER.REG),
+        LUnit("engine-refinement", ER.lemma_refinement),
         BUnit("engine-histories", engine_histories.run),
     ]
     return {"units": units, "level": "other", "notes": "pyvc"}
